@@ -170,18 +170,6 @@ func zzC03_midlen() {
 	vReach("C03_midlen")
 }
 
-// zzC03_pretty_helpers: the pure display helpers that the message-level harnesses summarise
-// (boolToSymbol, appIdToString, flagsToString) executed in isolation on every input.
-func zzC03_pretty_helpers() {
-	vNoPanic()
-	_ = boolToSymbol(vBool("flag"))
-	_ = appIdToString(int(vU64("appid")))
-	h := &Header{CommandFlags: vU8("flags")}
-	a, b, c, d := flagsToString(h)
-	vAssert(len(a) > 0 && len(b)+len(c)+len(d) >= 0, "flag strings")
-	vReach("C03_pretty_helpers")
-}
-
 // ---- struct unmarshalling of decoded arbitrary messages ----
 
 type zzU1 struct {
